@@ -13,6 +13,8 @@ use std::collections::BTreeSet;
 use std::collections::HashMap;
 
 pub struct BuiltCase {
+  /// lockfile remote checksums; None = no locker
+  pub lock: Option<std::collections::BTreeMap<String, String>>,
   pub world: World,
   pub roots: Vec<String>,
   pub bcfg: BuildCfg,
@@ -47,10 +49,19 @@ pub fn gen_build_case(rng: &mut Rng, tier: Tier) -> BuiltCase {
   }
   let unstable = (rng.chance(50), rng.chance(50), false);
   let max_redirects = *rng.pick(&[10usize, 10, 2, 0]);
-  BuiltCase { world, roots, bcfg, unstable, max_redirects }
+  BuiltCase { lock: None, world, roots, bcfg, unstable, max_redirects }
 }
 
 pub fn real_build(c: &BuiltCase, graph: &mut ModuleGraph, roots: &[String], imports: &[(String, Vec<String>)]) -> Vec<LoadCall> {
+  real_build_locked(c, graph, roots, imports).0
+}
+
+/// Returns the loader calls and the locker's set_remote_checksum calls.
+pub fn real_build_locked(c: &BuiltCase, graph: &mut ModuleGraph, roots: &[String], imports: &[(String, Vec<String>)]) -> (Vec<LoadCall>, Vec<(String, String)>) {
+  let mut locker = LogLocker::default();
+  if let Some(l) = &c.lock {
+    locker.remote = l.iter().map(|(k, v)| (k.clone(), v.clone())).collect();
+  }
   let mut loader = WorldLoader::new(&c.world);
   loader.max_redirects = c.max_redirects;
   let roots_u: Vec<ModuleSpecifier> = roots.iter().map(|r| ModuleSpecifier::parse(r).unwrap()).collect();
@@ -66,10 +77,12 @@ pub fn real_build(c: &BuiltCase, graph: &mut ModuleGraph, roots: &[String], impo
     unstable_text_imports: c.unstable.1,
     unstable_css_imports: c.unstable.2,
     executor: &exec,
+    locker: if c.lock.is_some() { Some(&mut locker) } else { None },
     ..Default::default()
   };
   futures::executor::block_on(graph.build(roots_u, imports, &loader, options));
-  loader.log.borrow().clone()
+  let log = loader.log.borrow().clone();
+  (log, locker.sets.clone())
 }
 
 pub fn opts_sx(c: &BuiltCase) -> Sx {
